@@ -308,6 +308,10 @@ func runC12(c *Ctx, r *Report, tier string) {
 	r.Check(skipOK, "OMIT", c.fname(wg), "defaults are omitted only when IniIncludeDefaults is unset", c.pos(wg.Pos()), "the omission test is REQ(options & IniIncludeDefaults == 0)", "the omission of default-valued options is not tied to IniIncludeDefaults")
 
 	// ---- NAMES
+	r.Rule("RESOLVE", "the reader resolves a written name to the option it was written for: optionByName priorities (shared with C13)", 4)
+	if obn := c.mustFn(r, "(*Group).optionByName"); obn != nil {
+		c.priorityRules(r, "RESOLVE", obn)
+	}
 	var rets []string
 	for _, ret := range returnsOf(oin) {
 		rets = append(rets, c.term(ret.Results[0]))
